@@ -152,7 +152,22 @@ func (lr *lbRun) runNoExplore() *lbResult {
 	return lr.run()
 }
 
+// run: one pass over the corpus; a tool error (the corpus could not be generated or loaded - no verdict about
+// goverter) is retried once from scratch before it is reported.
 func (lr *lbRun) run() *lbResult {
+	res := lr.runOnce()
+	if res.Fatal != "" {
+		fmt.Fprintln(os.Stderr, "tool error, retrying once:", firstLine(res.Fatal))
+		for _, c := range lr.Convs {
+			c.GenOK, c.GenErr, c.GenCrash = false, "", ""
+		}
+		time.Sleep(2 * time.Second)
+		res = lr.runOnce()
+	}
+	return res
+}
+
+func (lr *lbRun) runOnce() *lbResult {
 	t0 := time.Now()
 	res := &lbResult{}
 	opt := lr.Opt
